@@ -214,7 +214,9 @@ pub fn build_oracle<A: Attr>(sc: &Scene<A>) -> Oracle {
     let (w, h) = (sc.win.2 as usize, sc.win.3 as usize);
     let mut mask = vec![false; w * h];
     let extent = r.max(b) as f64;
-    let drift = if extent > 128.0 { 4e-8 * extent * extent } else { 0.0 };
+    // worst case of one half-ulp rounding per scanline step, all in the same
+    // direction: rows · ½ulp(x) ≤ extent · extent · 2^-24
+    let drift = if extent > 128.0 { 6e-8 * extent * extent } else { 0.0 };
     let mut mask_drift = if drift > 0.0 { Some(vec![false; w * h]) } else { None };
     let rd = drift.max(MASK_R) + 1e-3;
     let mut itris = vec![];
@@ -254,6 +256,42 @@ pub fn build_oracle<A: Attr>(sc: &Scene<A>) -> Oracle {
         }
     }
     Oracle { itris, mask, drift, mask_drift, vpx, w, h, unmappable }
+}
+
+/// F9 attribution helper: bound on the error accumulated in a stepped
+/// reciprocal depth of triangle k over `extent` f32 additions.
+fn accum_slack(or: &Oracle, k: usize) -> f64 {
+    let extent = (or.drift / 6e-8).sqrt();
+    1.2e-7 * extent * or.itris[k].s_max_visible(&or.vpx)
+}
+
+/// F9 attribution helper: the depth slack of triangle k at `centre` under a
+/// positional error of at most the drift allowance, plus accumulation.
+fn depth_drift_slack(or: &Oracle, k: usize, centre: P2, s: f64) -> f64 {
+    let d = or.drift;
+    let mut dz = 0.0f64;
+    for (dx, dy) in [(d, 0.0), (-d, 0.0), (0.0, d), (0.0, -d), (d, d), (d, -d), (-d, d), (-d, -d)] {
+        if let Some(s2) = or.itris[k].s_at(or.vpx.to_ndc((centre.0 + dx, centre.1 + dy))) {
+            dz = dz.max((s2 - s).abs());
+        }
+    }
+    dz + accum_slack(or, k)
+}
+
+/// F9 attribution: could the depth-test winner at this pixel change if every
+/// covering surface's depth were off by its drift slack? (Large targets only.)
+fn order_ambiguous_under_drift(or: &Oracle, hits: &[(f64, usize, [f64; 3])], centre: P2, prior: Option<f64>) -> bool {
+    if !(or.drift > 0.0) || hits.is_empty() {
+        return false;
+    }
+    let (s0, k0, _) = hits[0];
+    let dz0 = depth_drift_slack(or, k0, centre, s0);
+    if let Some(pz) = prior {
+        if (pz - s0).abs() <= 1e-3 * s0 + dz0 {
+            return true;
+        }
+    }
+    hits[1..].iter().any(|&(sj, kj, _)| (s0 - sj).abs() <= 1e-3 * s0 + dz0 + depth_drift_slack(or, kj, centre, sj))
 }
 
 /// Judges the final buffers of one component render against the oracle.
@@ -300,6 +338,7 @@ fn judge_image<A: Attr>(rep: &mut Report, sc: &Scene<A>, or: &Oracle, cv: &Canva
                 rep.count("pixels.within_F9_drift_allowance_of_an_edge");
             }
             let sig = |s: &'static str| if near_drift { "image.edge_drift_large_extent" } else { s };
+            let _ = &sig;
             hits.clear();
             let mut selfcheck_bad = false;
             for (k, it) in or.itris.iter().enumerate() {
@@ -354,31 +393,46 @@ fn judge_image<A: Attr>(rep: &mut Report, sc: &Scene<A>, or: &Oracle, cv: &Canva
                     // the previous frame's surface is nearer: must be kept
                     rep.count("pixels.judged_occluded_by_prior_depth");
                     if changed {
+                        let f9 = near_drift || order_ambiguous_under_drift(or, &hits, centre, Some(pzd));
                         rep.violation(
-                            sig("image.occluded_pixel_drawn"),
+                            if near_drift {
+                                "image.edge_drift_large_extent"
+                            } else if f9 {
+                                "image.value_drift_large_extent"
+                            } else {
+                                "image.occluded_pixel_drawn"
+                            },
                             format!("pixel ({x},{y}): prior reciprocal depth {pz} is nearer than the nearest triangle ({}) but the pixel changed", hits[0].0),
                             sc.json(),
                         );
-                        if near_drift {
-                        continue;
-                    }
-                    return false;
+                        if f9 {
+                            continue;
+                        }
+                        return false;
                     }
                     continue;
                 }
             }
             let (s, k, bb) = hits[0];
             rep.count("pixels.judged_inside");
+            let prior_for_order = if sc.tk.has_depth() { Some(pz as f64) } else { None };
             if gc == pc {
+                let f9 = near_drift || order_ambiguous_under_drift(or, &hits, centre, prior_for_order);
                 rep.violation(
-                    sig("image.inside_pixel_not_drawn"),
-                    format!("pixel ({x},{y}) lies inside the visible part of triangle {k} (≥ {MASK_R} px from all edges, reciprocal depth {s}) but kept its previous colour"),
+                    if near_drift {
+                        "image.edge_drift_large_extent"
+                    } else if f9 {
+                        "image.value_drift_large_extent"
+                    } else {
+                        "image.inside_pixel_not_drawn"
+                    },
+                    format!("pixel ({x},{y}) lies inside the visible part of triangle {k} (≥ {MASK_R} px from all edges, reciprocal depth {s}; prior depth {pz}) but kept its previous colour"),
                     sc.json(),
                 );
-                if near_drift {
-                        continue;
-                    }
-                    return false;
+                if f9 {
+                    continue;
+                }
+                return false;
             }
             // first-order positional slack: the value at the best point
             // within 0.001 px of the centre
@@ -410,11 +464,22 @@ fn judge_image<A: Attr>(rep: &mut Report, sc: &Scene<A>, or: &Oracle, cv: &Canva
                             dz = dz.max((s2 - s).abs());
                         }
                     }
+                    // accumulation in the stepped sums themselves (a/w and
+                    // 1/w are advanced by repeated f32 addition down the left
+                    // edge and along the span): one rounding of the largest
+                    // summand per step
+                    let acc = accum_slack(or, k);
+                    dz += acc;
+                    da += acc / s * (ranges[k].1 + ea.abs());
                 }
                 (da, dz)
             };
             if !(err_a <= tol_a) {
-                let (da, _) = drift_slack(rep);
+                let (mut da, _) = drift_slack(rep);
+                if !near_drift && !(err_a <= tol_a + da) && order_ambiguous_under_drift(or, &hits, centre, prior_for_order) {
+                    // another surface may have won the depth test
+                    da = f64::INFINITY;
+                }
                 rep.violation(
                     if near_drift {
                         "image.edge_drift_large_extent"
@@ -436,7 +501,10 @@ fn judge_image<A: Attr>(rep: &mut Report, sc: &Scene<A>, or: &Oracle, cv: &Canva
                 let err_z = (gz as f64 - s).abs();
                 rep.worst("depth_err/tol", if err_z.is_nan() { f64::INFINITY } else { err_z / tol_z }, 1.0, || format!("pixel ({x},{y}) tri {k} got {gz} exp {s}"));
                 if !(err_z <= tol_z) {
-                    let (_, dz) = drift_slack(rep);
+                    let (_, mut dz) = drift_slack(rep);
+                    if !near_drift && !(err_z <= tol_z + dz) && order_ambiguous_under_drift(or, &hits, centre, prior_for_order) {
+                        dz = f64::INFINITY;
+                    }
                     rep.violation(
                         if near_drift {
                             "image.edge_drift_large_extent"
@@ -622,7 +690,7 @@ fn front_door_case(rng: &mut Rng, rep: &mut Report) {
 pub fn run(cfg: &Cfg, rep: &mut Report) {
     rep.rule = "case = one scene: 1..6 (thorough: 1..12) clip-space triangles (w of either sign, any subset of planes crossed, on-plane coordinates, magnitudes over two decades; also view space through perspective/orthographic), an attribute type (7 kinds, each component rendered separately), a target kind (4), a viewport sub-rectangle of a window of a buffer ≤ 64x64 (stream large_targets: ≤ 2048x2048, f32 attribute, 1..3 triangles), prior frame (sentinel colours; depth 0 or random per pixel); every pixel judged; non-trivial = at least one pixel judged inside a visible part; distinct by hash of all scene words".into();
     rep.assumptions.push("oracle: β = M⁻¹(X,Y,1) in f64 on the exact f32 clip coordinates; real clip output used only for masking fan edges".into());
-    rep.assumptions.push("value tolerances get the first-order positional slack of 0.001 px (DESIGN §10-2); buffers ≤ 64 px in the main stream so raster position error stays far inside the 0.02 px mask; in the large_targets stream violations explained by the F9 drift model (screen coordinates > 128 px, positional error ≤ 4e-8·extent² px) carry their own signatures image.edge_drift_large_extent / image.value_drift_large_extent, everything else keeps the strict signatures".into());
+    rep.assumptions.push("value tolerances get the first-order positional slack of 0.001 px (DESIGN §10-2); buffers ≤ 64 px in the main stream so raster position error stays far inside the 0.02 px mask; in the large_targets stream violations explained by the F9 drift model (screen coordinates > 128 px, positional error ≤ 6e-8·extent² px) carry their own signatures image.edge_drift_large_extent / image.value_drift_large_extent, everything else keeps the strict signatures".into());
     rep.assumptions.push("colour-only targets have no depth buffer: pixels covered by more than one visible triangle are skipped there".into());
 
     // pin: F1 through render()
